@@ -358,3 +358,17 @@ def run_units(units, tier_dir, with_canaries=True, jobs=JOBS):
             r = fut.result()
             recs.append((u, mut, r))
     return recs
+
+
+def rederive_replayable(unit, failure, tier_dir):
+    """re-run one refuted obligation with -DVP_REPLAYABLE (inputs restricted to what the real class accepts)"""
+    import copy
+    u2 = copy.copy(unit)
+    u2.uid = unit.uid + "__replayable"
+    u2.defines = list(unit.defines) + ["VP_REPLAYABLE"]
+    u2.runs = [Run(only=[failure["name"]], backend=failure["backend"], timeout=120, route="R")]
+    r = process_unit(u2, tier_dir, False)
+    for f in r["failures"]:
+        if f["name"] == failure["name"] and f["inputs"]:
+            return f
+    return None
